@@ -1036,7 +1036,9 @@ fn derive_dot_expression(
         // Tuple field access by name
         (Shape::Tuple(tshape), Expression::Simple(Value::Str(pi)))
         | (Shape::Tuple(tshape), Expression::Simple(Value::Symbol(pi))) => {
-            for (field_name, field_shape) in tshape.val.iter() {
+            // A copy appends its overrides to the fields of the base: the
+            // last field of a name is the one that counts.
+            for (field_name, field_shape) in tshape.val.iter().rev() {
                 if field_name.val == pi.val {
                     return field_shape.clone();
                 }
@@ -1102,10 +1104,14 @@ fn derive_dot_expression(
                     for t in types {
                         match t {
                             Shape::Tuple(tshape) => {
-                                for (field_name, field_shape) in tshape.val.iter() {
-                                    if field_name.val == pi.val {
-                                        results.push(field_shape.clone());
-                                    }
+                                // The last field of a name is the one that counts.
+                                if let Some((_, field_shape)) = tshape
+                                    .val
+                                    .iter()
+                                    .rev()
+                                    .find(|(field_name, _)| field_name.val == pi.val)
+                                {
+                                    results.push(field_shape.clone());
                                 }
                             }
                             Shape::Hole(_) => {
@@ -1249,7 +1255,9 @@ fn resolve_tuple_field(
 ) -> Shape {
     match accessor_expr {
         Expression::Simple(Value::Symbol(pi)) | Expression::Simple(Value::Str(pi)) => {
-            for (field_name, field_shape) in tshape.val.iter() {
+            // A copy appends its overrides to the fields of the base: the
+            // last field of a name is the one that counts.
+            for (field_name, field_shape) in tshape.val.iter().rev() {
                 if field_name.val == pi.val {
                     return field_shape.clone();
                 }
